@@ -117,7 +117,8 @@ def step (st : St) (line : String) : St × String :=
   | ["mdec", k] =>
     match k.toInt? with
     | some k =>
-      let b := if k < 0 then st.mbytes else st.mbytes.take k.toNat
+      let b := if k < -1 then st.mbytes.take (st.mbytes.length - (-k - 1).toNat)
+               else if k < 0 then st.mbytes else st.mbytes.take k.toNat
       (st, " ".intercalate (decM (b.length + 2) b []))
     | none => (st, "bad-op")
   | _ => (st, "bad-op")
